@@ -143,3 +143,141 @@ __CPROVER_assigns()
 __CPROVER_ensures(__CPROVER_return_value == (HEAP(this_) ? EXTP(this_)->_handles : &INL(this_)[0]) + CNT(this_))
 ;
 #endif
+
+/* ---- operator<<(suspend_point &&other): this' = this . other (position-wise), other emptied, other's block released once.
+ * MERGE_SRC_PRE restricts the representation of `other` per unit: the loop over an *inline* source runs at most 3 times by the
+ * representation invariant, so unwinding it 4 times with unwinding assertions is a complete proof of that case. */
+#ifdef CV_HAS_sp_merge
+#ifndef MERGE_SRC_PRE
+#define MERGE_SRC_PRE(other) 1
+#endif
+#ifndef MERGE_DST_PRE
+#define MERGE_DST_PRE(this_, other) 1
+#endif
+SP *sp_merge(SP *this_, SP *other)
+__CPROVER_requires(cv_exc_pending == 0 && __CPROVER_is_fresh(this_, sizeof(*this_)) && __CPROVER_is_fresh(other, sizeof(*other)))
+__CPROVER_requires(WF_FRESH(this_) && WF_FRESH(other) && MERGE_SRC_PRE(other) && MERGE_DST_PRE(this_, other) && CNT(this_) + CNT(other) < MAXC - 1)
+__CPROVER_requires(gh_cf == this_->_count_flag && gh_cf2 == other->_count_flag)
+__CPROVER_requires(gh_G < CNT(this_) ==> gh_oldH == H(this_, gh_G))
+__CPROVER_requires(gh_G2 < CNT(other) ==> gh_oldH2 == H(other, gh_G2))
+__CPROVER_assigns(__CPROVER_object_whole(this_), other->_count_flag, gh_allocs, gh_frees)
+__CPROVER_assigns(HEAP(this_): __CPROVER_object_whole(EXTP(this_)->_handles))
+__CPROVER_frees(HEAP(this_): EXTP(this_)->_handles)
+__CPROVER_frees(HEAP(other): EXTP(other)->_handles)
+__CPROVER_ensures(cv_exc_pending == 0 && __CPROVER_return_value == this_)
+__CPROVER_ensures(CNT(this_) == (gh_cf >> 1) + (gh_cf2 >> 1))                                 /* none dropped, none added    */
+__CPROVER_ensures(other->_count_flag == 0)                                                    /* source resumes nothing      */
+__CPROVER_ensures(gh_G < (gh_cf >> 1) ==> H(this_, gh_G) == gh_oldH)                          /* own handles keep positions  */
+__CPROVER_ensures(gh_G2 < (gh_cf2 >> 1) ==> H(this_, (gh_cf >> 1) + gh_G2) == gh_oldH2)       /* source handles appended in order */
+__CPROVER_ensures(WF_POST(this_))
+__CPROVER_ensures((gh_cf2 & 1) ==> __CPROVER_was_freed(__CPROVER_old(EXTP(other)->_handles))) /* source block released       */
+__CPROVER_ensures(gh_allocs - __CPROVER_old(gh_allocs) + (gh_cf & 1) + (gh_cf2 & 1) == gh_frees - __CPROVER_old(gh_frees) + (HEAP(this_) ? 1 : 0))   /* live blocks: exactly this' one */
+;
+#endif
+
+/* ---- operator<<(coroutine_handle &&h) = add(h.address()) */
+#ifdef CV_HAS_sp_merge_handle
+SP *sp_merge_handle(SP *this_, CH *h)
+__CPROVER_requires(cv_exc_pending == 0 && __CPROVER_is_fresh(this_, sizeof(*this_)) && __CPROVER_is_fresh(h, sizeof(*h)))
+__CPROVER_requires(WF_FRESH(this_) && CNT(this_) < MAXC - 1)
+__CPROVER_requires(gh_cf == this_->_count_flag)
+__CPROVER_requires(gh_G < CNT(this_) ==> gh_oldH == H(this_, gh_G))
+__CPROVER_assigns(__CPROVER_object_whole(this_), gh_allocs, gh_frees)
+__CPROVER_assigns(HEAP(this_): __CPROVER_object_whole(EXTP(this_)->_handles))
+__CPROVER_frees(HEAP(this_): EXTP(this_)->_handles)
+__CPROVER_ensures(cv_exc_pending == 0 && __CPROVER_return_value == this_)
+__CPROVER_ensures(CNT(this_) == (gh_cf >> 1) + 1 && H(this_, (gh_cf >> 1)) == h->_M_fr_ptr)
+__CPROVER_ensures(gh_G < (gh_cf >> 1) ==> H(this_, gh_G) == gh_oldH)
+__CPROVER_ensures(WF_POST(this_))
+;
+#endif
+
+/* ---- operator=(suspend_point &&other): documented as "merges like <<". Verified modularly as a pure forwarder: in this unit
+ * operator<< is an abstract callee that records its invocation (its own behaviour is the subject of the merge units). */
+#ifdef CV_HAS_sp_move_assign
+int gh_fw_calls; SP *gh_fw_this, *gh_fw_other;
+SP *sp_merge(SP *t, SP *o) { gh_fw_calls++; gh_fw_this = t; gh_fw_other = o; return t; }
+SP *sp_move_assign(SP *this_, SP *other)
+__CPROVER_requires(cv_exc_pending == 0 && gh_fw_calls == 0)
+__CPROVER_assigns(gh_fw_calls, gh_fw_this, gh_fw_other)
+__CPROVER_ensures(cv_exc_pending == 0 && __CPROVER_return_value == this_)
+__CPROVER_ensures(gh_fw_calls == 1 && gh_fw_this == this_ && gh_fw_other == other)   /* exactly one merge of other into this */
+;
+#endif
+
+/* ---- default constructor / await_ready */
+#ifdef CV_HAS_sp_ctor_default
+void sp_ctor_default(SP *this_)
+__CPROVER_requires(cv_exc_pending == 0 && __CPROVER_is_fresh(this_, sizeof(*this_)))
+__CPROVER_assigns(__CPROVER_object_whole(this_))
+__CPROVER_ensures(this_->_count_flag == 0 && cv_exc_pending == 0)
+;
+#endif
+#ifdef CV_HAS_sp_await_ready
+cv_i1 sp_await_ready(SP *this_)
+__CPROVER_requires(cv_exc_pending == 0 && __CPROVER_is_fresh(this_, sizeof(*this_)))
+__CPROVER_assigns()
+__CPROVER_ensures(__CPROVER_return_value == (CNT(this_) == 0 ? 1 : 0))
+;
+#endif
+
+/* ---- typed suspend points: the attached value is the one the producer supplied */
+#ifdef CV_HAS_spb_ctor_val
+void spb_ctor_val(SPB *this_, cv_i1 v)
+__CPROVER_requires(cv_exc_pending == 0 && __CPROVER_is_fresh(this_, sizeof(*this_)) && v <= 1)
+__CPROVER_assigns(__CPROVER_object_whole(this_))
+__CPROVER_ensures(this_->base_suspend_point._count_flag == 0 && this_->value == v && cv_exc_pending == 0)
+;
+#endif
+#ifdef CV_HAS_spb_ctor_h
+void spb_ctor_h(SPB *this_, cv_i8 *h, cv_i1 v)
+__CPROVER_requires(cv_exc_pending == 0 && __CPROVER_is_fresh(this_, sizeof(*this_)) && v <= 1)
+__CPROVER_assigns(__CPROVER_object_whole(this_))
+__CPROVER_ensures(this_->base_suspend_point._count_flag == 2 && this_->base_suspend_point.f0.f0._handles[0] == h && this_->value == v && cv_exc_pending == 0)
+;
+#endif
+#ifdef CV_HAS_spb_ctor_from
+void spb_ctor_from(SPB *this_, SP *src, cv_i1 v)
+__CPROVER_requires(cv_exc_pending == 0 && __CPROVER_is_fresh(this_, sizeof(*this_)) && __CPROVER_is_fresh(src, sizeof(*src)) && v <= 1)
+__CPROVER_requires(WF_FRESH(src))
+__CPROVER_requires(gh_cf2 == src->_count_flag)
+__CPROVER_requires(gh_G < CNT(src) ==> gh_oldH2 == H(src, gh_G))
+__CPROVER_assigns(__CPROVER_object_whole(this_), src->_count_flag)
+__CPROVER_ensures(cv_exc_pending == 0 && this_->value == v)
+__CPROVER_ensures(this_->base_suspend_point._count_flag == gh_cf2 && src->_count_flag == 0)
+__CPROVER_ensures(gh_G < (gh_cf2 >> 1) ==> H((SP *)this_, gh_G) == gh_oldH2)
+;
+#endif
+#ifdef CV_HAS_spb_get
+cv_i1 spb_get(SPB *this_)
+__CPROVER_requires(cv_exc_pending == 0 && __CPROVER_is_fresh(this_, sizeof(*this_)) && this_->value <= 1)
+__CPROVER_assigns()
+__CPROVER_ensures(__CPROVER_return_value == this_->value)
+;
+#endif
+#ifdef CV_HAS_spb_await_resume
+cv_i8 *spb_await_resume(SPB *this_)
+__CPROVER_requires(cv_exc_pending == 0 && __CPROVER_is_fresh(this_, sizeof(*this_)))
+__CPROVER_assigns()
+__CPROVER_ensures(__CPROVER_return_value == &this_->value)
+;
+#endif
+#ifdef CV_HAS_spi_ctor_from
+void spi_ctor_from(SPI *this_, SP *src, cv_i32 v)
+__CPROVER_requires(cv_exc_pending == 0 && __CPROVER_is_fresh(this_, sizeof(*this_)) && __CPROVER_is_fresh(src, sizeof(*src)))
+__CPROVER_requires(WF_FRESH(src))
+__CPROVER_requires(gh_cf2 == src->_count_flag)
+__CPROVER_requires(gh_G < CNT(src) ==> gh_oldH2 == H(src, gh_G))
+__CPROVER_assigns(__CPROVER_object_whole(this_), src->_count_flag)
+__CPROVER_ensures(cv_exc_pending == 0 && this_->value == v)
+__CPROVER_ensures(this_->base_suspend_point._count_flag == gh_cf2 && src->_count_flag == 0)
+__CPROVER_ensures(gh_G < (gh_cf2 >> 1) ==> H((SP *)this_, gh_G) == gh_oldH2)
+;
+#endif
+#ifdef CV_HAS_spi_get
+cv_i32 spi_get(SPI *this_)
+__CPROVER_requires(cv_exc_pending == 0 && __CPROVER_is_fresh(this_, sizeof(*this_)))
+__CPROVER_assigns()
+__CPROVER_ensures(__CPROVER_return_value == this_->value)
+;
+#endif
